@@ -22,6 +22,7 @@ from .common import Infra
 
 KNOWN_SIG = 'sample-nesting-notimplemented:evaluable-over-sum'
 EMPTY_MUL_SIG = 'mul-bind-empty-factor:AssertionError'
+TRANSPOSE_SIG = 'sample-eval-raises:ValueError:repeated-axis-in-transpose'
 EPS_TABLE = Fraction(1, 10**13)      # failing-input threshold for the exact-rational monomial oracle on float rules
 
 
@@ -764,7 +765,12 @@ def known_finding_inputs():
         X, x = mesh.rectilinear([1, 1], space='X'); Y, y = mesh.line(2, space='Y')
         (X.sample('uniform', 2) * Y.sample('gauss', 1).take_elements(numpy.array([], dtype=int))).eval(x[0])
 
-    return {KNOWN_SIG: (sum_under_take, NotImplementedError), EMPTY_MUL_SIG: (empty_factor, AssertionError)}
+    def transpose_axis():
+        X, x = mesh.line(2, space='X'); Y, y = mesh.line(2, space='Y'); Z, z = mesh.line(1, space='Z')
+        a = X[:1].sample('gauss', 2) + X[1:].sample('gauss', 2)
+        (a * (Y.sample('gauss', 2).take_elements(numpy.array([0, 1])) * Z.sample('gauss', 2))).eval(x)
+
+    return {KNOWN_SIG: (sum_under_take, NotImplementedError), EMPTY_MUL_SIG: (empty_factor, AssertionError), TRANSPOSE_SIG: (transpose_axis, ValueError)}
 
 
 def stream_known_finding(c):
@@ -1404,6 +1410,8 @@ def stream_samples(c, N):
                 c.failing_input(KNOWN_SIG, 'integrate/eval of take_elements or zip over a sample containing a sum raises NotImplementedError', dict(replay, error=repr(raised)))
             elif isinstance(raised, (AssertionError, ZeroDivisionError)) and has_empty_product(node, spec):     # same root cause, the exception depends on the shape
                 c.failing_input(EMPTY_MUL_SIG, 'eval of a product sample with a factor without points raises AssertionError (function.reshape of a zero-size array in _Mul._bind)', dict(replay, error=repr(raised)))
+            elif isinstance(raised, ValueError) and 'repeated axis in transpose' in str(raised):
+                c.failing_input(TRANSPOSE_SIG, "eval of a nested sample raises ValueError 'repeated axis in transpose' in the optimized evaluable (plain evaluation is correct)", dict(replay, error=repr(raised)))
             else:
                 bad['evaluable'] += 1
                 c.failing_input('sample-eval-raises:%s' % name, 'eval/integrate of %s raises %s: %s' % (expr[:60], name, str(raised)[:100]), dict(replay, error=repr(raised)))
